@@ -18,9 +18,11 @@ Three parts:
 ``selftest()`` replays the histories and the commit lists spelled out in tests/test_ghist.py.
 """
 
+import contextlib
 import io
 import json
 import re
+import signal
 from hashlib import sha1
 
 from ak import ghist
@@ -29,6 +31,26 @@ BASE_TIME = 1_700_000_000      # all dates = BASE_TIME + 10*intid: inside the 1-
 SEARCH_TEXT = "BUG-7"
 NOT_BUILT = "8888.8888.8888"
 NOT_MERGED = "9999.9999.9999"
+
+
+class Hang(Exception):
+    """The code under test used more CPU time than any explored case can need (endless loop)."""
+
+
+def _on_vtalrm(_sig, _frame):
+    raise Hang("CPU time limit exceeded")
+
+
+@contextlib.contextmanager
+def cpu_limit(seconds):
+    """Watchdog on the CPU time of this process (ITIMER_VIRTUAL: immune to machine load)."""
+    old = signal.signal(signal.SIGVTALRM, _on_vtalrm)
+    signal.setitimer(signal.ITIMER_VIRTUAL, seconds)
+    try:
+        yield
+    finally:
+        signal.setitimer(signal.ITIMER_VIRTUAL, 0)
+        signal.signal(signal.SIGVTALRM, old)
 
 
 # =====================================================================================
@@ -350,8 +372,9 @@ def c06_judge(parents, heads, tags, match, observed, expected=None):
                          names, [n for n in want_order if n in names]))
 
     obs_by_name = {b[0]: b[1] for b in observed}
-    for e in exp:
+    for ei, e in enumerate(exp):
         name = e["branch"]
+        prev = exp[ei - 1] if ei else None
         qual = "head-inside-lower-branch" if e["head_inside_lower"] else "fresh-head"
         blds = obs_by_name.get(name, [])
         count = {}
@@ -417,7 +440,10 @@ def c06_judge(parents, heads, tags, match, observed, expected=None):
         for m in e["nm"]:
             c = under_nm.get(m, 0)
             if c == 0:
-                problems.append((f"unmerged-commit-missing-from-not-merged/{qual}",
+                # class of the failure: does the branch sorted immediately before this one list the commit at all?
+                prev_lists = any(m in pr for _k, _l, _c, pr in obs_by_name.get(prev["branch"], []))
+                q2 = "general" if prev_lists else "previous-branch-does-not-list-it"
+                problems.append((f"unmerged-commit-missing-from-not-merged/{q2}",
                                  f"{name}: matching commit {m} is in a lower-sorted branch, not reachable from head "
                                  f"{e['head']}, but not printed under '- not merged -'", blds, sorted(e["nm"])))
             elif c > 1 or count.get(m, 0) > 1:
